@@ -139,8 +139,8 @@ def histories(seq, scale):
     return out
 
 
-def per_arm_rows(history):
-    arms, rows = [1, 2], {1: [], 2: []}
+def per_arm_rows(history, arms0=(1, 2)):
+    arms, rows = list(arms0), {a: [] for a in arms0}
     for op in history:
         if op[0] == "add_arm":
             arms.append(op[1])
@@ -158,9 +158,9 @@ def build(cfg, history):
     return mab
 
 
-def judge(mab, history, q, cls, alpha, lam, scale, tol=None):
+def judge(mab, history, q, cls, alpha, lam, scale, tol=None, arms0=(1, 2)):
     out = ops.call(copy.deepcopy(mab), "predict_expectations", q)
-    arms, rows = per_arm_rows(history)
+    arms, rows = per_arm_rows(history, arms0)
     if ops.is_exc(out):
         return ["predict_expectations raised %s" % out["__exc__"]], None
     obs = [out] if len(q) == 1 else out
@@ -272,6 +272,30 @@ def run_shard(shard):
             if msgs:
                 acc.violation("%s lam=1e-06 scale=False d=3 m=2 tiny-lambda allobs" % shard["p"],
                               {"cfg": tiny_cfg, "history": hist, "query": q, "tol": 1e-4}, msgs[0])
+    # large adjacent numeric labels, decisions handed over as lists, int64 and float64 arrays: every arm is the
+    # regression of exactly its own rows (labels 1e5 apart from nothing but each other by 1)
+    big = {1: 100001, 2: 100002}
+    base_rows = [ROWS[d][i % len(ROWS[d])] for i in range(7)]
+    seq = [(big[r[0]], r[1], r[2]) for r in base_rows] + [(7, ROWS[d][0][1], 1.5)]
+    for enc in (None, "int64", "float64"):
+        for cut in (len(seq), 5) if not scale else (len(seq),):
+            big_cfg = dict(cfg, arms=[100001, 100002, 100003, 7])
+            hist = []
+            for i, (a, b) in enumerate([(0, cut), (cut, len(seq))]):
+                if a == b:
+                    continue
+                chunk = seq[a:b]
+                op = ["fit" if i == 0 else "partial_fit", [r[0] for r in chunk], [r[2] for r in chunk], [list(r[1]) for r in chunk]]
+                hist.append(op + ([{"d": enc}] if enc else []))
+            mab = build(big_cfg, hist)
+            q = QUERIES[d][:2]
+            msgs, out = judge(mab, hist, q, cls, alpha, lam, scale, arms0=big_cfg["arms"])
+            acc.traces += 1
+            acc.case((shard["p"], lam, scale, d, "big-labels", enc, cut))
+            acc.state((shard["p"], lam, scale, d, "big-labels", enc, cut))
+            if msgs:
+                acc.violation("%s lam=%s scale=%s d=%d big-labels %s" % (shard["p"], lam, scale, d, enc or "list"),
+                              {"cfg": big_cfg, "history": hist, "query": q}, "decisions as %s: %s" % (enc or "list", msgs[0]))
     # one long history per shard
     hist = long_history(d)
     mab = build(cfg, hist)
@@ -290,9 +314,6 @@ def run_shard(shard):
 def replay(w):
     cfg = w["cfg"]
     cls, kw = cfg["lp"]
-    if w.get("tol"):
-        m_, _ = judge(build(cfg, w["history"]), w["history"], w["query"], cls, kw.get("alpha", 0), kw.get("l2_lambda", 1),
-                      kw.get("scale", False), tol=w["tol"])
-        return m_
-    msgs, _ = judge(build(cfg, w["history"]), w["history"], w["query"], cls, kw.get("alpha", 0), kw.get("l2_lambda", 1), kw.get("scale", False))
+    msgs, _ = judge(build(cfg, w["history"]), w["history"], w["query"], cls, kw.get("alpha", 0), kw.get("l2_lambda", 1),
+                    kw.get("scale", False), tol=w.get("tol"), arms0=cfg["arms"])
     return msgs
